@@ -12,7 +12,7 @@
 From Coq Require Import List ZArith NArith Bool.
 From WF Require Import Base.Bytes Sem.RangeSet Lang.Types Lang.Ast Lang.Context
      Sem.Compile Spec.Denote Spec.Typing Proofs.ExecProofs Proofs.CallProofs Proofs.FullProofs
-     Parse.Lex Parse.Parser Proofs.ParserProofs Proofs.ParserClosed.
+     Parse.Lex Parse.Parser Proofs.ParserProofs Proofs.ParserClosed Spec.Grammar Proofs.GrammarProofs.
 Import ListNotations.
 
 Definition C04_full : Prop :=
@@ -55,6 +55,17 @@ Theorem C04_parser_accepts_only_well_typed_values : forall sch st text e rest,
 Proof.
   intros sch st text e rest H. pose proof (parse_value_post sch st text) as P.
   rewrite H in P. exact (proj1 (proj1 P)).
+Qed.
+
+(* ---- completeness on the surface grammar: every text of Spec/Grammar.v (a well-typed filter written in any
+   layout, spelling and literal form; constructs covered: see that file) is accepted, with the intended AST.
+   Partial with respect to C04_full: the grammar does not yet describe every construct of the language; for
+   the rest, completeness is decided by the exhaustive matrices of the correspondence check. ---- *)
+Theorem C04_grammar_is_accepted_partial : forall sch st text e,
+  GFilter sch st text e -> parse_filter sch st text = LOk e [] /\ wt_filter sch e = true.
+Proof.
+  intros sch st text e HG. pose proof (filter_grammar_parses sch st text e HG) as Hp.
+  split; [exact Hp|]. eapply C04_parser_accepts_only_well_typed; exact Hp.
 Qed.
 
 (* text to execution: an accepted filter runs without panicking on every well-formed context *)
